@@ -332,7 +332,7 @@ class JsonSchemaGenerator:
             name = field.name
             properties[name] = value
             if field.dependencies:
-                dependent_required[name] = field.dependencies
+                dependent_required[name] = sorted(field.dependencies)
             if field.is_required(options or self.options):
                 # will count options.ignore_required in
                 required.append(name)
